@@ -441,6 +441,90 @@ func checkC19(c *Ctx) {
 		}
 	}
 
+	// ---- C19.11 the statistics report iterates the per-epoch maps while the ingest workers insert into them: every range
+	// over generations / lvStats / ttStats (a map is not copied by assigning it to a local) runs with that map's mutex
+	// held - iteration concurrent with an insert aborts the process ("concurrent map iteration and map write")
+	r.Rule("C19.11", "the statistics maps are iterated only under their mutex", 3)
+	{
+		want := map[string]string{"generations": "genMutex", "lvStats": "lvMutex", "ttStats": "ttMutex"}
+		n := 0
+		for _, f := range c.funcsOfPkgs(lib) {
+			for _, ff := range withAnon(f) {
+				if ff.Blocks == nil {
+					continue
+				}
+				var lf *LockFlow
+				eachInstr(ff, func(in ssa.Instruction) {
+					rg, ok := in.(*ssa.Range)
+					if !ok {
+						return
+					}
+					// the ranged value: a load of one of the fields, possibly through a local
+					fld := ""
+					var walk func(v ssa.Value, d int)
+					walk = func(v ssa.Value, d int) {
+						if d > 4 || fld != "" {
+							return
+						}
+						switch x := v.(type) {
+						case *ssa.UnOp:
+							if o, fl, ok := fieldOwner(x.X); ok && o == "lib.RegistrationStats" {
+								if _, tracked := want[fl]; tracked {
+									fld = fl
+									return
+								}
+							}
+							if al, isA := x.X.(*ssa.Alloc); isA && al.Referrers() != nil {
+								for _, ref := range *al.Referrers() {
+									if st, ok := ref.(*ssa.Store); ok && st.Addr == ssa.Value(al) {
+										walk(st.Val, d+1)
+									}
+								}
+							}
+						case *ssa.Phi:
+							for _, e := range x.Edges {
+								walk(e, d+1)
+							}
+						}
+					}
+					walk(rg.X, 0)
+					if fld == "" {
+						return
+					}
+					n++
+					if lf == nil {
+						lf = analyseLocks(ff, lockSet{})
+					}
+					held := false
+					for k := range realLocks(lf.Must[in]) {
+						if strings.Contains(k, "."+want[fld]+"/") {
+							held = true
+						}
+					}
+					// every Next of this iteration as well
+					if held && rg.Referrers() != nil {
+						for _, ref := range *rg.Referrers() {
+							if nx, ok := ref.(*ssa.Next); ok {
+								h2 := false
+								for k := range realLocks(lf.Must[nx]) {
+									if strings.Contains(k, "."+want[fld]+"/") {
+										h2 = true
+									}
+								}
+								held = held && h2
+							}
+						}
+					}
+					r.Check(held, "C19.11", fnName(ff)+": range over "+fld+" under "+want[fld], in.Pos(), fnName(ff), "the mutex is in the must-held set at the range and at every step",
+						"the statistics report walks "+fld+" without holding "+want[fld]+" (the map was only picked up under the lock): an ingest worker that accounts a registration with a new generation / transport / version during the walk makes the runtime abort the station")
+				})
+			}
+		}
+		if n == 0 {
+			r.Unk("C19.11", "ranges over the statistics maps", token.NoPos, "", "none found")
+		}
+	}
+
 	// ---- C19.3 printers
 	r.Rule("C19.3", "statistics printers: no integer division by a variable; optional interface fields nil-guarded", 5)
 	// an optional cache field holds a usable cache or nothing: the LRU constructor (the only cache constructor that can
